@@ -15,13 +15,16 @@ THEOREMS = {
     "C01": _gt("errEnum_eq", "rfcEnum_eq", "setup_eq", "limits_eq"),
     "C02": _gt("errEnum_eq", "specials_eq"),
     "C03": _gt("errEnum_eq", "specials_eq", "buildOpts_eq"),
-    "C04": _gt("errEnum_eq", "limits_eq", "buildOpts_eq"),
+    "C04": _gt("errEnum_eq", "limits_eq", "buildOpts_eq") + [("Eav.Props.C04", "Eav.Props.C04." + n) for n in
+            ("host_iff", "isAsciiDomain_iff_spec", "specHost_iff", "host6531_sound", "isAsciiDomain_nonpos")] + [("Eav.Lemmas.Domain", "Eav.domLoop_ok")],
     "C05": _gt("errEnum_eq"),
     "C06": _gt("init_sets_all", "init_fields", "limits_eq", "lenFilter_eq"),
     "C07": _gt("errEnum_eq", "tldTypeEnum_eq") + [("Eav.Props.C07", "Eav.Props.C07." + n) for n in
             ("tldScan_eq_lookup", "isTld_eq_lookup", "whole_label", "case_insensitive", "isTld_eq_csv")] +
            [("Eav.Props.C11", "Eav.Props.C11." + n) for n in ("table_eq_gen", "lengths_and_types", "names_lower_alabel", "names_distinct")],
-    "C08": _gt("errEnum_eq", "tldTypeEnum_eq", "tldBitEnum_eq", "init_values"),
+    "C08": _gt("errEnum_eq", "tldTypeEnum_eq", "tldBitEnum_eq", "init_values") + [("Eav.Props.C08", "Eav.Props.C08." + n) for n in
+            ("policyArm_eq", "policy_iff", "own_bit_only", "negative_rc_any_mask", "zero_rc_any_mask", "mask_irrelevant_unless_class",
+             "abort_only_outside_classes", "init_defaults")],
     "C09": _gt("reserved_eq", "example_eq", "exampleLabel_eq", "lenFilter_eq", "tldTypeEnum_eq"),
     "C10": _gt("errEnum_eq"),
     "C11": _gt("tldTypeEnum_eq") + [("Eav.Props.C11", "Eav.Props.C11." + n) for n in
